@@ -47,11 +47,14 @@ CHECKS.update({
           STORE_NOTE + " For cosmosdb the status/group/order semantics are decided on the emitted query text under our reading of Cosmos SQL.", "DESIGN.md §C15"),
 })
 
-CRASH_NOTE = ("Crash model: process death; the durable state after a crash is a prefix of the committed write sequence "
-              "(sqlite, each update its own auto-commit), replayed with the repository's own WithCapture facility. sqlite only.")
+CRASH_NOTE = ("Crash model: process death. sqlite: the durable state after a crash is a prefix of the committed write sequence "
+              "(each update its own auto-commit), replayed with the repository's own WithCapture facility, cross-validated by real SIGKILLs on a "
+              "file-backed store. cosmosdb (fake client + verif hook): the process dies between two mutating client calls (a write gate lets k "
+              "through and parks every later writer), a second vault over the same storage is the next process; small strictly sequential plans, single crashes. "
+              "'Hung' is decided on progress standing still, never on elapsed time alone.")
 CHECKS.update({
  "C09": c("fault_enumeration", "fault enumeration by write-prefix replay + plugin-invocation monitor in the recovering Workstream",
-          "For every explored plan EVERY prefix of its committed write sequence is restored into a fresh store and a normal Workstream recovers on it; the plugin log of the recovering process is checked against the durable snapshot: no invocation for actions with a durable successful result nor inside durably finished sequences/blocks/plans. A sampled share of crash points is followed by every second crash during recovery.",
+          "For every explored plan EVERY prefix of its committed write sequence is restored into a fresh store and a normal Workstream recovers on it; the plugin log of the recovering process is checked against the durable snapshot: no invocation for actions with a durable successful result nor inside durably finished sequences/blocks/plans, and nothing durably finished is written Running again (the recovery runs through a recording vault). A sampled share of crash points is followed by every second crash during recovery.",
           CRASH_NOTE, "DESIGN.md §C09"),
  "C10": c("fault_enumeration", "fault enumeration by write-prefix replay (single and double crash) + termination watchdog, consistency, deferred-check and outcome-equality oracles",
           "Same executions as C09: recovery must return within the watchdog, the final plan obeys the consistency rules of an uninterrupted run (nothing Running, reason truthful), deferred checks of entered scopes have run, durably terminal crash states hold nothing Running, and when outcomes are a function of the action alone the plan status equals the uninterrupted one (cross-checked by an evaluator of the scripts).",
